@@ -26,6 +26,8 @@ struct cfg {
   int lose_first; /* the network loses the first k datagrams the client sends (copies of its first handshake flight) */
   int maxretx;    /* >0: MAX_RETRANSMIT of the client session (also the number of handshake retransmissions libcoap makes) */
   int sni_case;   /* SV_SNI only: which name / key the second client uses (see sni_cases) */
+  int blk;        /* the client context does block-wise transfers for the application (COAP_BLOCK_USE_LIBCOAP) and the last queued
+                   * Confirmable is an Observe registration: libcoap keeps its own copy of such a request besides the queued one */
   int bound;
   int free_drops; /* drops of the first N datagrams cost nothing */
 };
@@ -269,6 +271,8 @@ submit_all(void) {
     Q[nq].con = con;
     coap_pdu_t *p = coap_new_pdu(con ? COAP_MESSAGE_CON : COAP_MESSAGE_NON, COAP_REQUEST_CODE_GET, cs);
     coap_add_token(p, 1, &Q[nq].tok);
+    if (C->blk && con && i == C->ncon + C->with_non - 1)
+      coap_add_option(p, COAP_OPTION_OBSERVE, 0, NULL);
     coap_add_option(p, COAP_OPTION_URI_PATH, 11, (const uint8_t *)"s3cr3t-path");
     coap_mid_t r = coap_send(cs, p);
     Q[nq].accepted = r != COAP_INVALID_MID;
@@ -463,6 +467,8 @@ run(void *arg) {
   coap_register_response_handler(cc, resp_handler);
   coap_register_nack_handler(cc, nack_handler);
   coap_register_event_handler(cc, ev_c);
+  if (C->blk)
+    coap_context_set_block_mode(cc, COAP_BLOCK_USE_LIBCOAP);
   memset(&cpsk, 0, sizeof cpsk);
   cpsk.version = COAP_DTLS_CPSK_SETUP_VERSION;
   const char *id = "id1";
@@ -622,8 +628,8 @@ static int ncfgs;
 static void
 add(struct cfg c) {
   cfgs = realloc(cfgs, sizeof *cfgs * (size_t)(ncfgs + 1));
-  snprintf(c.name, sizeof c.name, "c19:sv=%d,cl=%s,ncon=%d,non=%d,inj=%d@%d,rel=%d,sni=%d/%d,nh=%d,mr=%d,lf=%d,tls=%d,fd=%d,B=%d", c.sv, cl_names[c.cl], c.ncon, c.with_non, c.inject,
-           c.inject_at, c.release_at, c.sni, c.sni_case, c.nohint, c.maxretx, c.lose_first, c.tls, c.free_drops, c.bound);
+  snprintf(c.name, sizeof c.name, "c19:sv=%d,cl=%s,ncon=%d,non=%d,inj=%d@%d,rel=%d,sni=%d/%d,nh=%d,mr=%d,lf=%d,tls=%d,blk=%d,fd=%d,B=%d", c.sv, cl_names[c.cl], c.ncon, c.with_non, c.inject,
+           c.inject_at, c.release_at, c.sni, c.sni_case, c.nohint, c.maxretx, c.lose_first, c.tls, c.blk, c.free_drops, c.bound);
   cfgs[ncfgs++] = c;
 }
 
@@ -647,6 +653,22 @@ main(int argc, char **argv) {
       for (int q = 0; q < 2; q++) {
         struct cfg c = {.sv = sv, .cl = cl, .ncon = q ? 3 : 1, .with_non = q, .release_at = -1, .sni = (sv + cl) % 2, .tls = 1, .bound = 0};
         add(c);
+      }
+  /* the client library does block-wise transfers for the application and the last queued Confirmable registers an observation */
+  for (int sv = 0; sv < 2; sv++)
+    for (int cl = 0; cl < CL_NCLASSES; cl++)
+      for (int q = 1; q <= 2; q++) {
+        struct cfg c = {.sv = sv, .cl = cl, .ncon = q, .release_at = -1, .sni = (sv + cl) % 2, .blk = 1, .bound = T ? 2 : 1};
+        add(c);
+        if (q == 2 && sv == 0) {
+          c.tls = 1;
+          c.bound = 0;
+          add(c);
+          c.tls = 0;
+          c.release_at = 4;
+          c.bound = T ? 2 : 1;
+          add(c);
+        }
       }
   /* matching credentials, MAX_RETRANSMIT 2: the loss of the first one or two copies of the client's first flight must be survived */
   {
@@ -694,7 +716,7 @@ main(int argc, char **argv) {
   }
   vx_ev_rule("real GnuTLS DTLS-PSK client and server contexts of libcoap over the simulated network with a virtual clock; product of server key "
              "table {single key, identity table} x client credentials {match, wrong key, prefix key, longer key, unknown identity, client rejects "
-             "hint, second identity} x queued requests {1 CON, 3 CON + 1 NON} x SNI; the same product with a server that sends no identity hint; a server choosing the key by SNI callback (two names with own keys, default key without SNI) "
+             "hint, second identity} x queued requests {1 CON, 3 CON + 1 NON} x SNI; the product again with a client context in COAP_BLOCK_USE_LIBCOAP mode whose last queued Confirmable is an Observe registration (1 or 2 CON; DTLS, TLS, released mid-handshake); the same product with a server that sends no identity hint; a server choosing the key by SNI callback (two names with own keys, default key without SNI) "
              "after a first client has completed a handshake under one name, x 9 (name, key) combinations of the second client incl. prefix / "
              "longer / other-case / absent names; all schedules with <= bound drop/duplicate/reorder deviations "
              "over the first 14 datagrams; cleartext CoAP injected from the client's and a third address at each step; application release "
